@@ -107,6 +107,26 @@ def handle (op : String) (a : Json) : Except String Json := do
         | none => Json.mkObj [("g", gj)]
       handle1 o args
     return valJ (arrJ (outs ++ [geomJ (← getGeom gj)]))
+  | "history" =>
+    -- a sequence of steps on one object: `query` steps are answered on the coordinates the object
+    -- has at that step (every other step carries the new geometry value `g`)
+    let mut cur : Option Json := none
+    let mut outs : List Json := []
+    for st in (← fldArr a "steps") do
+      if (← fldStr st "do") == "query" then
+        match cur with
+        | none => throw "history: query before the first geometry"
+        | some gj =>
+          let rs ← (← fldArr st "calls").mapM fun c => do
+            let o ← fldStr c "op"
+            let args := match fldOpt c "pos" with
+              | some p => Json.mkObj [("g", gj), ("pos", p)]
+              | none => Json.mkObj [("g", gj)]
+            handle1 o args
+          outs := outs ++ [arrJ (rs ++ [geomJ (← getGeom gj)])]
+      else
+        cur := some (← fld st "g")
+    return valJ (arrJ outs)
   | _ => handle1 op a
 
 end SE.Ops.C05
